@@ -177,15 +177,19 @@ def body_axial(env):
 
 
 # ------------------------------------------------------------------ pins
-def _pin_spec(n, P, D, clad, Dw, f0, f1):
+def _pin_spec(n, P, D, clad, Dw, f0, f1, lowfid=None):
     big = (float(f0), float(f1))
+    a = dict(n=n, P=float(P), D=float(D), Dw=float(Dw), clad=float(clad), ftf=big)
+    if lowfid:
+        a['lowfid'] = lowfid
     return {'asms': {'a0': dict(n=2, ftf=(min(big) if min(big) > 0.03 else 0.2, max(big) if min(big) > 0.03 else 0.204)),
-                     'a': dict(n=n, P=float(P), D=float(D), Dw=float(Dw), clad=float(clad), ftf=big)},
+                     'a': a},
             'assign': [('a0', 1, 1, 'FLOWRATE=0.5'), ('a', 2, 1, 'FLOWRATE=0.5')], 'pitch': 1.05 * max(max(big), 0.03)}
 
 
 def body_pin(env):
     n = env.params['n_ring']
+    lowfid = env.params.get('lowfid')       # the assembly is run on a low-fidelity model: its pin data still enter (volume fraction, friction)
     P = env.real('pin_pitch', lo=-1, hi=1, nominal=0.0085)
     D = env.real('pin_diameter', lo=-1, hi=1, nominal=0.0070)
     clad = env.real('clad_thickness', lo=-1, hi=1, nominal=0.0003)
@@ -195,22 +199,29 @@ def body_pin(env):
     env.assumption('wire_diameter >= 0 and duct_ftf > 0 (input template ranges / check_duct instances)')
     if env.mode == 'sym':
         with env.patch(MODS):
-            o = _reader(('pin', n), _pin_spec(n, 0.0085, 0.0070, 0.0003, 0.001, 0.2, 0.204))
+            o = _reader(('pin', n, lowfid), _pin_spec(n, 0.0085, 0.0070, 0.0003, 0.001, 0.2, 0.204, lowfid))
             a = o.data['Assembly']['a']
             a['pin_pitch'], a['pin_diameter'], a['clad_thickness'], a['wire_diameter'] = P, D, clad, Dw
             a['duct_ftf'] = [f0, f1]
             out, info = _run_validator(env, lambda: ri.DASSH_Input.check_pin(o))
     else:
-        out, info = _pipeline(_pin_spec(n, P, D, clad, Dw, f0, f1))
+        out, info = _pipeline(_pin_spec(n, P, D, clad, Dw, f0, f1, lowfid))
     _outcome(env, out, info)
     env.gt('accepted: pin pitch positive', P, 0.0, key='nonpositive_dimension')
     env.gt('accepted: pin diameter positive', D, 0.0, key='nonpositive_dimension')
     env.gt('accepted: clad thickness positive', clad, 0.0, key='nonpositive_dimension')
     env.ge('accepted: pin pitch >= pin diameter', P, D, key='pins_overlap')
     env.le('accepted: clad not thicker than the pin radius', clad, D / 2, key='clad_thicker_than_radius')
-    env.le('accepted: wire not thicker than the gap between pins', Dw, P - D, key='wire_too_thick')
     fmin = core.sym_min(f0, f1) if env.mode == 'sym' else min(f0, f1)
-    env.le('accepted: the pin bundle fits inside the duct', SQRT3 * (n - 1) * P + D + 2 * Dw, fmin, key='pins_do_not_fit')
+    if not lowfid:
+        env.le('accepted: wire not thicker than the gap between pins', Dw, P - D, key='wire_too_thick')
+    else:
+        # a bundle that does not fit is rejected by the region set-up; among the inputs that survive it the wire must fit too
+        env.holds('accepted and the bundle fits inside the duct: wire not thicker than the gap between pins',
+                  env.lor(SQRT3 * (n - 1) * P + D + 2 * Dw > fmin, Dw <= P - D), key='wire_too_thick')
+    if not lowfid:
+        # (for a low-fidelity assembly the reader leaves this test to the region set-up; the validator alone is not the last word)
+        env.le('accepted: the pin bundle fits inside the duct', SQRT3 * (n - 1) * P + D + 2 * Dw, fmin, key='pins_do_not_fit')
 
 
 # ------------------------------------------------------------------ ducts
@@ -402,6 +413,8 @@ def instances(tier):
         inst.append(dict(label='axial-regions[k=%d]' % k, body=body_axial, params={'k': k}, max_paths=4000, max_depth=60, timeout_ms=60000))
     for n in ((2, 3) if tier == 'quick' else (2, 3, 4, 6, 9)):
         inst.append(dict(label='pin[rings=%d]' % n, body=body_pin, params={'n_ring': n}))
+    for lf in ('simple', '6node'):
+        inst.append(dict(label='pin[rings=3,low-fidelity model %s]' % lf, body=body_pin, params={'n_ring': 3, 'lowfid': lf}))
     for nb in (1, 2):
         inst.append(dict(label='duct[ducts of type b=%d]' % nb, body=body_duct, params={'n_duct_b': nb}, max_paths=4000, max_depth=80))
     for kind in ('flowrate', 'outlet_temp', 'delta_temp'):
